@@ -11,7 +11,7 @@ RULE = (
     "A (call tree, selector) pair over the C03 function family: focus-free selectors (captures at every level, "
     "sibling sub-selectors, depth <= 3) and focused selectors forced to total mode; call trees include repeated and "
     "recursive outermost calls, several top-level calls per run, empty loops (a captured variable never bound) and "
-    "activations that raise.  Records from probing(sel, raw=True[, probe_type='total']) and from "
+    "activations that raise, and record handlers that themselves raise at the end of an outermost call (the run then goes on in its caller).  Records from probing(sel, raw=True[, probe_type='total']) and from "
     "BaseOverlay(Total(...)) are timestamped against the program's own log and compared with a reference computed "
     "from that log: one record per root-function activation at its exit, all values in binding order, only if every "
     "capture has a value.  non-trivial = reference expects >= 1 record; distinct = distinct (trees, selector) pairs."
@@ -27,7 +27,12 @@ MIN_DECIDING = {"quick": 1500, "thorough": 40000}
 SHARD_TIMEOUT = {"quick": 900, "thorough": 7200}
 
 
-def observe(ns, s, trees, mode, forced):
+class Reject(ValueError):
+    """Raised by the record handler itself (a subscriber that rejects a record).  The family's
+    callers swallow ValueError, so the run goes on in the caller of the call that just ended."""
+
+
+def observe(ns, s, trees, mode, forced, raise_at=()):
     from ptera import probing
     from ptera.interpret import Total
     from ptera.overlay import BaseOverlay, autotool
@@ -39,6 +44,8 @@ def observe(ns, s, trees, mode, forced):
 
     def take(d):
         got.append((len(LOG), {k: list(c.values) for k, c in d.items()}))
+        if (len(got) - 1) in raise_at:
+            raise Reject(len(got))
 
     if mode == "overlay":
         selobj = select(s, env=ns)
@@ -68,7 +75,7 @@ def check_pair(ns, trees, sel, focus, mode, res, case):
     case = dict(case, selector=s)
     res.evaluations += 1
     try:
-        got = observe(ns, s, trees, mode, focus is not None)
+        got = observe(ns, s, trees, mode, focus is not None, tuple(case.get("raise_at") or ()))
     except Exception as e:
         res.violation(case, "exception while observing: " + common.fmt_exc(e))
         return
@@ -141,6 +148,11 @@ def run_shard(spec):
             focus = CT.place_focus(rnd, sel)
         mode = "overlay" if (focus is None and rnd.random() < 0.5) else "probing"
         case = {"nf": nf, "trees": trees, "sel": sel, "focus": focus, "mode": mode}
+        if focus is None and rnd.random() < 0.3:
+            # the handler raises after taking some of the records (focus-free selectors only: the
+            # records of one forced-total call are delivered in one loop, which a raise would cut)
+            case["raise_at"] = sorted(rnd.sample(range(6), rnd.randint(1, 3)))
+            res.count("pairs_with_raising_handler")
         r = check_pair(ns, trees, sel, focus, mode, res, case)
         if r and i % 400 == 0:
             res.sample({"trees": trees, "selector": r[0], "forced_total": focus is not None, "records_expected": r[1]})
